@@ -59,8 +59,8 @@ CLAIMED = {
             'Cease iff Established, close, then no byte written and no connect attempt whatever the environment does '
             'for 2400 s; manual start connects at once, recovery is automatic again, start while Established is a no-op.',
             'Trusted base: simnet, Flask test client for the REST calls.', '5/C13'),
-    'C14': ('property-based testing (Hypothesis) + exhaustive enumeration (all 65536 NOTIFICATION code/subcode pairs, all '
-            'capability-switch subsets); round trip and differential against refcodec',
+    'C14': ('property-based testing (Hypothesis) + exhaustive enumeration (all 65536 NOTIFICATION code/subcode pairs, every Data length, '
+            'length-framed Data shapes, all capability-switch subsets); round trip and differential against refcodec',
             'OPEN/NOTIFICATION/KEEPALIVE/ROUTE-REFRESH: construct->parse round trip, byte equality with the independent '
             'encoder, and decoding of refcodec-encoded OPENs over capability subsets, orders and packagings.',
             'Trusted base: refcodec OPEN encoder/decoder.', '5/C14'),
